@@ -48,37 +48,40 @@ Deltas == {[study |-> OneCell(c, v), t |-> 0, t2 |-> 0, trial |-> NoMeta] : c \i
 On(k) == k \in Kinds
 
 \* The history bound is an enabling condition (not a CONSTRAINT) so that every generated
-\* successor is within the bound and gets printed by Dump.
-Calls ==
-  \/ On("CreateStudy") /\ \E s \in Studies, cfg \in Cfgs : Do([rpc |-> "CreateStudy", s |-> s, cfg |-> cfg])
-  \/ On("GetStudy") /\ \E s \in Studies : Do([rpc |-> "GetStudy", s |-> s])
-  \/ On("ListStudies") /\ Do([rpc |-> "ListStudies"])
-  \/ On("DeleteStudy") /\ \E s \in Studies : Do([rpc |-> "DeleteStudy", s |-> s])
-  \/ On("SetStudyState") /\ \E s \in Studies, x \in {"ACTIVE", "INACTIVE", "COMPLETED"} :
+\* successor is within the bound and gets printed by Dump.  One named action per RPC kind so
+\* that TLC's -coverage reports each separately (vacuity gate).
+En(k) == On(k) /\ Len(hist) < MaxDepth
+ACreateStudy == En("CreateStudy") /\ \E s \in Studies, cfg \in Cfgs : Do([rpc |-> "CreateStudy", s |-> s, cfg |-> cfg])
+AGetStudy == En("GetStudy") /\ \E s \in Studies : Do([rpc |-> "GetStudy", s |-> s])
+AListStudies == En("ListStudies") /\ Do([rpc |-> "ListStudies"])
+ADeleteStudy == En("DeleteStudy") /\ \E s \in Studies : Do([rpc |-> "DeleteStudy", s |-> s])
+ASetStudyState == En("SetStudyState") /\ \E s \in Studies, x \in {"ACTIVE", "INACTIVE", "COMPLETED"} :
         Do([rpc |-> "SetStudyState", s |-> s, x |-> x])
-  \/ On("CreateTrial") /\ \E s \in Studies, p \in Params, c \in FinalOpts :
+ACreateTrial == En("CreateTrial") /\ \E s \in Studies, p \in Params, c \in FinalOpts :
         /\ MaxTrialId(st, s) < MaxId
         /\ Do([rpc |-> "CreateTrial", s |-> s, p |-> p, c |-> c])
-  \/ On("GetTrial") /\ \E s \in Studies, t \in Ids : Do([rpc |-> "GetTrial", s |-> s, t |-> t])
-  \/ On("ListTrials") /\ \E s \in Studies : Do([rpc |-> "ListTrials", s |-> s])
-  \/ On("AddMeasurement") /\ \E s \in Studies, t \in Ids, m \in Meas :
+AGetTrial == En("GetTrial") /\ \E s \in Studies, t \in Ids : Do([rpc |-> "GetTrial", s |-> s, t |-> t])
+AListTrials == En("ListTrials") /\ \E s \in Studies : Do([rpc |-> "ListTrials", s |-> s])
+AAddMeasurement == En("AddMeasurement") /\ \E s \in Studies, t \in Ids, m \in Meas :
         Do([rpc |-> "AddMeasurement", s |-> s, t |-> t, m |-> m])
-  \/ On("CompleteTrial") /\ \E s \in Studies, t \in Ids, f \in FinalOpts, inf \in BOOLEAN, r \in Reasons :
+ACompleteTrial == En("CompleteTrial") /\ \E s \in Studies, t \in Ids, f \in FinalOpts, inf \in BOOLEAN, r \in Reasons :
         /\ (~inf => r = "")
         /\ Do([rpc |-> "CompleteTrial", s |-> s, t |-> t, f |-> f, inf |-> inf, reason |-> r])
-  \/ On("StopTrial") /\ \E s \in Studies, t \in Ids : Do([rpc |-> "StopTrial", s |-> s, t |-> t])
-  \/ On("DeleteTrial") /\ \E s \in Studies, t \in Ids : Do([rpc |-> "DeleteTrial", s |-> s, t |-> t])
-  \/ On("SuggestTrials") /\ \E s \in Studies, w \in Clients, n \in 1..MaxCount, env \in SuggestEnvs :
+AStopTrial == En("StopTrial") /\ \E s \in Studies, t \in Ids : Do([rpc |-> "StopTrial", s |-> s, t |-> t])
+ADeleteTrial == En("DeleteTrial") /\ \E s \in Studies, t \in Ids : Do([rpc |-> "DeleteTrial", s |-> s, t |-> t])
+ASuggestTrials == En("SuggestTrials") /\ \E s \in Studies, w \in Clients, n \in 1..MaxCount, env \in SuggestEnvs :
         /\ SuggestWithinBound(st, s, env)
         /\ Do([rpc |-> "SuggestTrials", s |-> s, w |-> w, n |-> n, env |-> env])
-  \/ On("GetOperation") /\ \E s \in Studies, w \in Clients, i \in 1..2 :
+AGetOperation == En("GetOperation") /\ \E s \in Studies, w \in Clients, i \in 1..2 :
         Do([rpc |-> "GetOperation", s |-> s, w |-> w, i |-> i])
-  \/ On("CheckEarlyStopping") /\ \E s \in Studies, t \in Ids, env \in StopEnvs :
+ACheckEarlyStopping == En("CheckEarlyStopping") /\ \E s \in Studies, t \in Ids, env \in StopEnvs :
         Do([rpc |-> "CheckEarlyStopping", s |-> s, t |-> t, env |-> env])
-  \/ On("UpdateMetadata") /\ \E s \in Studies, d \in Deltas : Do([rpc |-> "UpdateMetadata", s |-> s, d |-> d])
-  \/ On("ListOptimalTrials") /\ \E s \in Studies : Do([rpc |-> "ListOptimalTrials", s |-> s])
+AUpdateMetadata == En("UpdateMetadata") /\ \E s \in Studies, d \in Deltas : Do([rpc |-> "UpdateMetadata", s |-> s, d |-> d])
+AListOptimalTrials == En("ListOptimalTrials") /\ \E s \in Studies : Do([rpc |-> "ListOptimalTrials", s |-> s])
 
-Next == Len(hist) < MaxDepth /\ Calls
+Next == \/ ACreateStudy \/ AGetStudy \/ AListStudies \/ ADeleteStudy \/ ASetStudyState \/ ACreateTrial \/ AGetTrial
+        \/ AListTrials \/ AAddMeasurement \/ ACompleteTrial \/ AStopTrial \/ ADeleteTrial \/ ASuggestTrials
+        \/ AGetOperation \/ ACheckEarlyStopping \/ AUpdateMetadata \/ AListOptimalTrials
 
 Spec == Init /\ [][Next]_vars
 
